@@ -128,9 +128,12 @@ package quadtree
 //@ func (*Quadtree).KNearest(q, buf, p, k, maxDistance)
 //@   requires k <= 1073741824
 //@   nowrite P:quadtree.node, P:quadtree.Quadtree, globals
+// the traversal starts on the root with the whole tree bound as the search region and as the cell: nothing
+// is pruned before a point has been seen (a distance limit only enters through maxDistSquared)
 //@ func (*Quadtree).KNearestMatching(q, buf, p, k, f, maxDistance)
 //@   purefuncs
 //@   requires k <= 1073741824
+//@   callpre Visit: v.closestBound != nil && same(*v.closestBound, q.bound) && same(arg1, q.root) && same(arg2, q.bound.Min[0]) && same(arg3, q.bound.Max[0]) && same(arg4, q.bound.Min[1]) && same(arg5, q.bound.Max[1])
 //@   nowrite P:quadtree.node, P:quadtree.Quadtree, globals
 //@   loop 1: invariant i == len(v.maxHeap) - 1 && i < len(buf) && isHeap(v.maxHeap) && noNaNs(v.maxHeap) && v != nil
 //@ func (*Quadtree).InBound(q, buf, b)
